@@ -81,8 +81,28 @@ _reg("C09", c09.run, theorems=["NirVerif.C09.iff", "NirVerif.C09.rejects"],
                 "raises ValueError. The model is tied to _check_types by differential testing on enumerated and sampled graphs.",
      level_note="Lean kernel; hand-written model of _check_types and of np.array_equal on shape values; correspondence sampling.")
 _reg("C10", c10.run)
-_reg("C11", c11.run)
-_reg("C12", c12.run)
+_reg("C11", c11.run,
+     theorems=["NirVerif.C11.names_injective", "NirVerif.C11.names_distinct", "NirVerif.C11.names_scheme", "NirVerif.C11.shape"],
+     translator=("T1", "T2"),
+     rule="Sequences of 1-8 (every 7th: 10-40) leaf primitives with repetition-heavy class choices favouring the "
+          "i/if/li/lif prefix family, optional leading Input / trailing Output, all three calling conventions; oracle "
+          "recomputes the expected names with an independent counter and checks identity, order, edges and end-point types.",
+     level_text="Kernel-checked: (class, index) -> name is injective at string level for all 18 class names and every "
+                "index (Nat.repr never contains '_'; no class name does), hence names are pairwise distinct for every "
+                "repetition pattern; the k-th repetition is named <class>_k; for every admissible sequence from_list "
+                "returns the graph [auto Input] ++ given nodes (same values, same order) ++ [auto Output] with distinct "
+                "keys, chain edges and end-point types taken from the first/last node.",
+     level_note="Lean kernel; hand-written model of from_list; class-name list tied to the source by T2; node-object "
+                "identity is exhibited by the correspondence/oracle run only (the model has values, not object ids).")
+_reg("C12", c12.run,
+     theorems=["NirVerif.C12.init", "NirVerif.C12.fromList_mirror", "NirVerif.C12.infer_mirror", "NirVerif.C12.infer_history"],
+     rule="Graphs with 0..n Input/Output children under arbitrary names, optionally nested, edges into Input nodes, "
+          "followed by random histories (<=4, thorough <=6 operations) over infer_types / to_dict+from_dict / write+read; "
+          "after every operation graph.inputs/outputs/input_type/output_type are compared with a scan of graph.nodes at every depth.",
+     level_text="Kernel-checked invariant: every constructed graph mirrors its Input/Output children; from_list and "
+                "infer_types (also when it raises half-way) preserve it, hence any number of inference runs does. Dict and "
+                "file round trips rebuild the graph through the constructor; their histories are covered by the correspondence run.",
+     level_note="Lean kernel; hand-written model of __post_init__/infer_types; histories with round trips rely on the oracle.")
 _reg("C13", c13.run)
 _reg("C14", c14.run)
 _reg("C15", c15.run)
